@@ -63,9 +63,18 @@ def declare_json(db):
                 continue
             for st3, is_list in ex.branch(st1, _is(ex, st1, v, "list")):
                 if is_list:
-                    st4 = st3.fork()
-                    yield ex.raise_(st4, "IndexError" if bm.natural_sort(idx) in ("int", "bool") else "TypeError")
-                    if bm.natural_sort(idx) in ("int", "bool"):
+                    if bm.natural_sort(idx) not in ("int", "bool"):
+                        yield ex.raise_(st3, "TypeError")
+                    elif idx == 0 and not bm.is_sym(idx):
+                        # a list is truthy iff it has a first element
+                        for st4, nonempty in ex.branch(st3, ex.truthy(st3, v)):
+                            if nonempty:
+                                yield st4, pure_result(ex, st4, "Json.item", "u:Json|None", [v, idx])
+                            else:
+                                yield ex.raise_(st4, "IndexError")
+                    else:
+                        st4 = st3.fork()
+                        yield ex.raise_(st4, "IndexError")
                         yield st3, pure_result(ex, st3, "Json.item", "u:Json|None", [v, idx])
                 else:
                     yield ex.raise_(st3, "TypeError")
@@ -123,10 +132,18 @@ def register(db):
     def decoder(mk, base):
         return mk.obj(DD, {"config": "opaque:ParserConfig", "context": "opaque:XmlContext"})
 
-    db.add(Contract(f"{DD}.verify_type", variant="call-view", trusted=True, call_default=True, params={}, returns="u:type",
-                    raises={"ParserError": True},
-                    call_ensures=["implies(clazz is not None, uf('verify_type.list', 'bool', clazz) == isinstance(data, list))"],
-                    note="call-site view: a requested class fixes whether the document must be an array"))
+    assume_method(db, "XmlContext", "find_type_by_fields", returns="u:type|None", pure=True)
+    db.add(Contract(
+        f"{DD}.detect_type",
+        params={"self": decoder, "data": "u:Json|None"},
+        ensures=[], raises={"ParserError": True}, returns="u:type", properties=P,
+        note="no class requested: the class is looked up by the keys of the (first) object of the document",
+    ))
+    db.add(Contract(
+        f"{DD}.verify_type",
+        params={"self": decoder, "clazz": "u:type|None", "data": "u:Json|None"},
+        ensures=[], raises={"ParserError": True}, returns="u:type", properties=P,
+    ))
     db.add(Contract(
         f"{DD}.find_var", variant="wrapper-shape",
         params={"cls": "opaque:type", "xml_vars": "seq[u:XmlVar]", "key": "str", "value": "u:Json|None"},
